@@ -713,7 +713,8 @@ unsafe fn range_file(image: &[u8], rva: Rva, min_size_of: usize) -> Result<&[u8]
 			// Calculate the offset in the section requested. cannot underflow, see $1
 			let section_offset = (rva - it.VirtualAddress) as usize;
 			return match section_bytes.get(section_offset..) {
-				Some(bytes) if bytes.len() >= min_size_of => Ok(bytes),
+				// An rva at the very end of the raw data is the first zero filled byte, not an empty slice
+				Some(bytes) if !bytes.is_empty() && bytes.len() >= min_size_of => Ok(bytes),
 				// Identify the reason the slice fails. cannot underflow, see $1
 				_ => Err(if min_size_of > (VirtualEnd - rva) as usize { Error::Bounds } else { Error::ZeroFill }),
 			};
